@@ -152,6 +152,11 @@ class Tr:
             op = n['opcode']
             a, b = n['inner']
             if op == '=':
+                if a['kind'] == 'DeclRefExpr':
+                    nm = a['referencedDecl']['name']
+                    v, st = self.ex(b, st)
+                    self.lets.append('let %s := %s in' % (nm, v))
+                    return nm, st
                 if a['kind'] != 'MemberExpr':
                     raise Untranslatable('assignment to a non member')
                 f = a['name'].lstrip('_') + '_'
@@ -196,11 +201,12 @@ def has_throw(n):
 
 
 class Fn:
-    def __init__(self, has_state, ret_is_value, throws):
+    def __init__(self, has_state, ret_is_value, throws, final='tt'):
         self.n = 0
         self.has_state = has_state
         self.retv = ret_is_value
         self.throws = throws
+        self.final = final
 
     def ret(self, v):
         return '(Some %s)' % v if self.throws else v
@@ -209,7 +215,7 @@ class Fn:
         if not stmts:
             if self.retv:
                 raise Untranslatable('control reaches the end of a value-returning function')
-            return self.ret(st if self.has_state else 'tt')
+            return self.ret(st if self.has_state else self.final)
         s, rest = stmts[0], stmts[1:]
         k = s['kind']
         if k == 'CompoundStmt':
@@ -263,7 +269,7 @@ class Fn:
         return '%s %s' % (' '.join(sub.lets), self.block(rest, st2))
 
 
-def translate_function(m, has_state):
+def translate_function(m, has_state, final='tt'):
     body = [c for c in m.get('inner', []) if c['kind'] == 'CompoundStmt']
     if not body:
         raise Untranslatable('no body')
@@ -271,7 +277,7 @@ def translate_function(m, has_state):
     rett = m['type']['qualType'].split('(')[0].strip()
     retv = rett != 'void'
     throws = has_throw(body[0])
-    f = Fn(has_state, retv, throws)
+    f = Fn(has_state, retv, throws, final)
     g = f.block(body, 'st')
     args = ('(st : words)' if has_state else '') + ''.join(' (%s : %s)' % (p, 'bool' if t == 'bool' else 'Z') for p, t in params)
     return 'Definition %s %s :=\n  %s.' % (m['name'], args.strip(), ' '.join(g.split()))
